@@ -283,25 +283,43 @@ def read_env(src, expr, skip_envs=(), tolerance=0, mode=MODE_NON_MATH):
     >>> read_env(buf, TexNamedEnv('foobar'), tolerance=1)  # error tolerance
     TexNamedEnv('foobar', [' tingtang '], [])
     """
-    contents = []
+    contents, args = [], None
     while src.hasNext():
         if src.peek().category == TC.Escape:
-            name, args = make_read_peek(read_command)(
-                src, skip=1, tolerance=tolerance, mode=mode)
+            name, _ = make_read_peek(read_command)(
+                src, 0, 0, skip=1, tolerance=tolerance, mode=mode)
             if name == 'end':
+                args = make_read_peek(read_env_end)(
+                    src, tolerance=tolerance, mode=mode)
                 break
         contents.append(read_expr(src, skip_envs=skip_envs, tolerance=tolerance, mode=mode))
-    error = not src.hasNext() or not args or \
-        not isinstance(args[0], BraceGroup) or args[0].string != expr.name
+    error = not src.hasNext() or not args or args[0].string != expr.name
     if error and tolerance == 0:
         unclosed_env_handler(src, expr, src.peek((0, 6)))
     elif not error:
-        # consume exactly the `\end`, an optional spacer and the name group
-        src.forward(2)
-        read_spacer(src)
-        read_arg(src, next(src), tolerance=tolerance, mode=mode)
+        read_env_end(src, tolerance=tolerance, mode=mode)
     expr.append(*contents)
     return expr
+
+
+def read_env_end(src, tolerance=0, mode=MODE_NON_MATH):
+    r"""Read `\end`, an optional spacer and the group naming the environment.
+
+    Nothing behind the name group is touched: it belongs to whatever follows
+    the environment.
+
+    :param Buffer src: a buffer of tokens, positioned at the escape of `\end`
+    :param int tolerance: error tolerance level (only supports 0 or 1)
+    :param str mode: math or not math mode
+    :return: the name group, if there is one
+    :rtype: TexArgs
+    """
+    src.forward(2)
+    read_spacer(src)
+    args = TexArgs()
+    if src.hasNext() and src.peek().category == TC.GroupBegin:
+        args.append(read_arg(src, next(src), tolerance=tolerance, mode=mode))
+    return args
 
 
 ############
